@@ -16,6 +16,13 @@ from terms import origin, show
 from facts import is_private_helper
 
 
+def _is_local_helper(g):
+    """non-public, non-trait function or method (module privacy: all its callers are in this crate's module tree) - the name may
+    collide with a word some rule mentions, which is irrelevant for reading its panic sites in its callers"""
+    return is_private_helper(g) or (g is not None and bool(g.blocks) and g.kind in ("fn", "method") and not g.j.get("trait") and not g.j.get("in_trait")
+                                    and (g.j.get("vis") or "") != "Public" and not (g.j.get("vis") or "").startswith("Restricted(DefId(0:0 "))
+
+
 def _host_sites(F, reach, h, s):
     """[(caller's inlined view, the same site inside it)] for a site of private helper (or closure of one) h"""
     out = []
@@ -24,7 +31,9 @@ def _host_sites(F, reach, h, s):
         g = F.fns[fid]
         if not g.blocks or g.id == h.id:
             continue
-        v = F.inlined(g, light=False)
+        if _is_local_helper(F.fns.get(g.j.get("root")) or g) and g.kind in ("fn", "method"):
+            continue        # an intermediate helper: its own callers' views contain this site (two levels are inlined)
+        v = F.inlined(g, light=False, also_types=(root.id,))      # opened up even if its name happens to be one a rule mentions
         if root.name not in (v.j.get("inlined") or []):
             continue
         if h.id != root.id:
@@ -104,7 +113,7 @@ def run(ctx):
                 continue
             # a site inside a private helper (extract-method) is the callers' site: read it in each caller's inlined view, where
             # the caller's guards dominate it and the ledger row reviewed for the caller names it
-            hv = _host_sites(F, reach, fn, s) if is_private_helper(F.fns.get(fn.j.get("root")) or fn) else []
+            hv = _host_sites(F, reach, fn, s) if _is_local_helper(F.fns.get(fn.j.get("root")) or fn) else []
             if not hv and fn.kind == "closure" and is_private_helper(F.fns.get(fn.j.get("root")) or fn):
                 # a closure written inside a private helper is not copied into the callers' views; it is the callers' closure all
                 # the same: the ledger row reviewed for `<caller>::{closure}` names it
@@ -150,7 +159,9 @@ def run(ctx):
     R.count("discharged_by_idiom", n_dis)
     R.count("ledger_rows_used", n_led)
     R.count("overflow_advisory_sites", n_ovf)
-    R.floor("panic_sites", n_sites, 150)
+    # 190 on the pinned tree, about 60 of them the repeated `.expect(DB_MUTEX_ERROR)` slot sentinel that one accessor helper
+    # replaces; the floor guards against the site inventory collapsing, not against de-duplication
+    R.floor("panic_sites", n_sites, 80)
     for key, row in ledger.items():
         if key not in used:
             R.note("ledger row no longer matches any site (stale): %s" % key[:120])
